@@ -224,12 +224,27 @@ func (b Builder) checkIndex(idx Expr, max Expr) Expr {
 	} else {
 		typ = prog.Uint()
 	}
+	if prog.SizeOf(idx.Type) > prog.SizeOf(typ) {
+		// The index is wider than int (a 64-bit index on a 32-bit target):
+		// range-check it in its own width, narrowing it first would drop
+		// the high bits and let an out-of-range index pass.
+		wmax := Expr{llvm.CreateZExt(b.impl, max.impl, idx.ll), idx.Type}
+		b.assertIndexRange(idx, wmax, checkMin, checkMax)
+		checkMin, checkMax = false, false
+	}
 	if prog.SizeOf(idx.Type) != prog.SizeOf(typ) {
 		srcType := idx.Type
 		idx.Type = typ
 		idx.impl = castUintptr(b, idx.impl, srcType, typ)
 	}
-	// check range expr
+	b.assertIndexRange(idx, max, checkMin, checkMax)
+	return idx
+}
+
+// assertIndexRange emits the index >= 0 && index < max check selected by
+// checkMin/checkMax; idx and max must have the same width.
+func (b Builder) assertIndexRange(idx Expr, max Expr, checkMin, checkMax bool) {
+	prog := b.Prog
 	var check Expr
 	if checkMin {
 		zero := llvm.ConstInt(idx.ll, 0, false)
@@ -249,7 +264,6 @@ func (b Builder) checkIndex(idx Expr, max Expr) Expr {
 	if !check.IsNil() {
 		b.InlineCall(b.Pkg.rtFunc("AssertIndexRange"), check)
 	}
-	return idx
 }
 
 // The Index instruction yields element Index of collection X, an array,
